@@ -284,6 +284,7 @@ Definition K_HOST := s2b "Host".
 Definition K_CONN := s2b "Connection".
 Definition K_CE := s2b "Content-Encoding".
 Definition K_XCCE := s2b "X-Consumed-Content-Encoding".
+Definition K_EXPECT := s2b "Expect".
 
 (* is_transfer_encoding_chunked: None = HTTPInputError *)
 Definition te_chunked (h : headers) : option bool :=
@@ -294,9 +295,10 @@ Definition te_chunked (h : headers) : option bool :=
       else if beqb (lower_s te) (s2b "chunked") then Some true else None
   end.
 
-(* _can_keep_alive (params.no_keep_alive = False); None = HTTPInputError raised
+(* _can_keep_alive (nka = params.no_keep_alive); None = HTTPInputError raised
    by is_transfer_encoding_chunked *)
-Definition can_keep_alive (m v : bytes) (h : headers) : option bool :=
+Definition can_keep_alive (nka : bool) (m v : bytes) (h : headers) : option bool :=
+  if nka then Some false else
   let conn := option_map lower_s (hcomb h K_CONN) in
   let is c := match conn with Some x => beqb x (s2b c) | None => false end in
   if beqb v (s2b "HTTP/1.1") then Some (negb (is "close"%string))
@@ -387,6 +389,7 @@ Definition host_check (v : bytes) (h : headers) : hostres :=
 Inductive ev :=
 | EvReq (m t v : bytes) (hs : list (bytes * bytes))  (* headers_received accepted *)
 | EvBody (b : bytes)                                 (* data_received, concatenated per request *)
+| EvContinue                                         (* "HTTP/1.1 100 (Continue)" written (Expect: 100-continue) *)
 | EvFin                                              (* finish(): the application gets the request *)
 | EvBad400                                           (* "HTTP/1.1 400 Bad Request" written, closed *)
 | EvClosed                                           (* UnsatisfiableReadError: closed, no response *)
@@ -396,7 +399,7 @@ Inductive ev :=
 | EvOutOfFuel.
 
 Definition is_terminal (e : ev) : bool :=
-  match e with EvReq _ _ _ _ | EvBody _ | EvFin => false | _ => true end.
+  match e with EvReq _ _ _ _ | EvBody _ | EvFin | EvContinue => false | _ => true end.
 
 (* ---------- the stream interface ---------- *)
 Inductive rres (S : Type) :=
@@ -432,7 +435,8 @@ Record cfg := {
   max_header : nat;              (* max_header_size *)
   max_body : N;                  (* max_body_size *)
   body_override : option N;      (* set_max_body_size called by the application in headers_received *)
-  chunk_pred : nat               (* chunk_size - 1 *)
+  chunk_pred : nat;              (* chunk_size - 1 *)
+  no_keep_alive : bool           (* HTTPServer(no_keep_alive=...) *)
 }.
 Definition eff_max_body (c : cfg) : N :=
   match body_override c with Some n => n | None => max_body c end.
@@ -442,6 +446,14 @@ Inductive bstat (S : Type) :=
 Arguments BDone {S}. Arguments BEofS {S}. Arguments BBadS {S}. Arguments BUnsatS {S}. Arguments BFuel {S}.
 
 Definition CRLF : bytes := [CR; LF].
+
+(* _read_message: `if headers.get("Expect") == "100-continue" and not self._write_finished` *)
+Definition expects_continue (h : headers) : bool :=
+  match hcomb h K_EXPECT with Some v => beqb v (s2b "100-continue") | None => false end.
+(* what a request whose head was accepted contributes first: headers_received, then the
+   interim response if it was asked for *)
+Definition req_evs (m t v : bytes) (h : headers) : list ev :=
+  EvReq m t v (get_all h) :: (if expects_continue h then [EvContinue] else []).
 
 Section Generic.
   Context {S : Type} (ops : sops S) (dl : dlg) (c : cfg).
@@ -490,9 +502,9 @@ Section Generic.
   Definition next (ka : bool) (s : S) : list ev * option S :=
     if ka then ([], Some s) else ([EvDone], None).
 
-  Definition finish_body (req : ev) (data : bytes) (dr : dres) (bs : bstat S) (ka : bool)
+  Definition finish_body (pre0 : list ev) (data : bytes) (dr : dres) (bs : bstat S) (ka : bool)
     : list ev * option S :=
-    let pre := req :: body_ev data in
+    let pre := pre0 ++ body_ev data in
     match dr with
     | DBad => (pre ++ [EvBad400], None)
     | DUncaught => (pre ++ [EvUncaught], None)
@@ -519,17 +531,17 @@ Section Generic.
         match parse_head hd with
         | None => ([EvBad400], None)
         | Some (m, t, v, h0) =>
-            match can_keep_alive m v h0 with
+            match can_keep_alive (no_keep_alive c) m v h0 with
             | None => ([EvBad400], None)
             | Some ka =>
                 let '(h, act) := d_headers dl h0 in
                 match host_check v h with
                 | HBad => ([EvBad400], None)
                 | HOk =>
-                    let req := EvReq m t v (get_all h) in
+                    let req := req_evs m t v h in
                     let maxb := eff_max_body c in
                     match body_plan maxb h with
-                    | None => ([req; EvBad400], None)
+                    | None => (req ++ [EvBad400], None)
                     | Some PNone => finish_body req [] DOk (BDone st1) ka
                     | Some (PFixed n) =>
                         let '(cs, o) := rd_body ops (chunk_pred c) n st1 in
